@@ -72,6 +72,8 @@ def gen_cases(tier, seed):
                 cost=COST.get(algo, 2),
                 # first repetition: defaults; later ones: documented options
                 options=random_options(algo, rng) if r else {},
+                # whole-number first observation / reward handed out as integers
+                int_first=bool(r % 2),
             ))
     return cases
 
